@@ -723,18 +723,35 @@ func c14ChunkPhase(c *Ctx, fn *ssa.Function) {
 					problems = append(problems, "stored name is not <slice>.ClientObject().GetName()")
 				} else {
 					setOK, recOK := false, false
-					for _, call := range callsIn(fn) {
-						if !il.L.Body[call.Block()] {
+					// the construction of the slice (factory, SetObjects) may live in an extracted helper:
+					// calls are taken from the inlined view, helper parameters are read through the
+					// call chain, and the object is identified through the helper's result
+					sliceVals := p.rvValuesX(sliceObj)
+					isSliceObj := func(v ssa.Value) bool {
+						if stripConv(v) == stripConv(sliceObj) {
+							return true
+						}
+						xs := p.rvValuesX(v)
+						return len(sliceVals) == 1 && len(xs) == 1 && stripConv(xs[0]) == stripConv(sliceVals[0])
+					}
+					recFn := c.MustFunc(pkgPkgDeploy, "(*DeploymentReconciler).reconcileSlice")
+					for _, xc := range p.callsInX(fn) {
+						call := xc.Call
+						outer := call.Block()
+						if len(xc.Chain) > 0 {
+							outer = xc.Chain[0].Block()
+						}
+						if !il.L.Body[outer] {
 							continue
 						}
-						if calleeName(call.Common) == "SetObjects" && callRecv(call.Common) == sliceObj {
-							if a := callArgs(call.Common); len(a) == 1 && p.isElemOf(a[0], il) {
-								if p.mustPrecede(store, func(in ssa.Instruction) bool { return in == call.Instr }) {
+						if calleeName(call.Common) == "SetObjects" && isSliceObj(callRecv(call.Common)) {
+							if a := callArgs(call.Common); len(a) == 1 && p.isElemOf(p.xcResolve(a[0], xc.Chain), il) {
+								if p.mustPrecedeX(store, func(in ssa.Instruction) bool { return in == call.Instr }) {
 									setOK = true
 								}
 							}
 						}
-						if calleeName(call.Common) == "reconcileSlice" {
+						if recFn != nil && staticCallee(call.Common) == recFn && len(xc.Chain) == 0 {
 							a := callArgs(call.Common)
 							if cv, isCall := call.Instr.(*ssa.Call); isCall && len(a) == 3 && a[2] == sliceObj && p.errOfCallIsNil(p.FactsAt(store.Block()), cv) {
 								recOK = true
@@ -1444,7 +1461,11 @@ func c14r4(c *Ctx) {
 		return
 	}
 	deploy, slice, count := fn.Params[2], fn.Params[3], fn.Params[4]
-	isAccessorOf := func(v ssa.Value, recv ssa.Value, names ...string) bool {
+	// Inlined view: the naming of the slice and the read of the conflicting slice may live in
+	// extracted helpers. Calls are taken from callsInX, values of a helper are interpreted through
+	// the chain of helper calls that leads to them (xcResolve), ordering and error facts are lifted
+	// through the helper.
+	isAccessorOfX := func(v ssa.Value, chain []Call, recv ssa.Value, names ...string) bool {
 		for i := len(names) - 1; i >= 0; i-- {
 			call, _ := asCall(v)
 			if call == nil || calleeName(call.Common()) != names[i] {
@@ -1452,24 +1473,88 @@ func c14r4(c *Ctx) {
 			}
 			v = callRecv(call.Common())
 		}
-		return stripConv(v) == recv
+		return p.xcResolve(v, chain) == recv
+	}
+	isAccessorOf := func(v ssa.Value, recv ssa.Value, names ...string) bool {
+		return isAccessorOfX(v, nil, recv, names...)
 	}
 	var create, get *ssa.Call
-	for _, call := range callsIn(fn) {
-		if ws, ok := classifyWriter(call); ok && ws.Verb == "Create" {
+	var getChain []Call
+	for _, xc := range p.callsInX(fn) {
+		call := xc.Call
+		if ws, ok := classifyWriter(call); ok && ws.Verb == "Create" && len(xc.Chain) == 0 {
 			create, _ = call.Instr.(*ssa.Call)
 		}
 		if isReaderGet(call.Common) {
 			get, _ = call.Instr.(*ssa.Call)
+			getChain = xc.Chain
 		}
+	}
+	// errNilX: the facts (of fn) establish that the error of call g — possibly made inside the
+	// helpers of chain — is nil: the helper call's own error is nil and every return of the helper
+	// that can return a nil error does so only when g's error is nil.
+	var errNilX func(fs []Fact, g *ssa.Call, chain []Call) bool
+	errNilX = func(fs []Fact, g *ssa.Call, chain []Call) bool {
+		if len(chain) == 0 {
+			return p.errOfCallIsNil(fs, g)
+		}
+		hc, isCall := chain[0].Instr.(*ssa.Call)
+		h := staticCallee(chain[0].Common)
+		if !isCall || h == nil || !p.errOfCallIsNil(fs, hc) {
+			return false
+		}
+		ei := -1
+		for i := 0; i < h.Signature.Results().Len(); i++ {
+			if h.Signature.Results().At(i).Type().String() == "error" {
+				ei = i
+			}
+		}
+		if ei < 0 {
+			return false
+		}
+		for _, rc := range p.returnCases(h) {
+			if h.Recover != nil && rc.Ret.Block() == h.Recover {
+				continue
+			}
+			if ei >= len(rc.Results) || rc.Results[ei] == nil {
+				return false
+			}
+			res := stripConv(rc.Results[ei])
+			if !isNilConst(res) {
+				if ec, _ := asCall(res); ec != nil && isCallTo(ec.Common(), "fmt.Errorf", "errors.New") {
+					continue
+				}
+				if p.nilnessFromFacts(rc.Facts, res) == noTri {
+					continue
+				}
+				// the helper passes an error on: it is nil only if it is g's own error
+				pvs := p.possibleValues(res)
+				own := len(pvs) > 0
+				for _, pv := range pvs {
+					if pc, _ := asCall(pv); pc != g {
+						own = false
+					}
+				}
+				if own && len(chain) == 1 {
+					continue
+				}
+				return false
+			}
+			if !errNilX(rc.Facts, g, chain[1:]) {
+				return false
+			}
+		}
+		return true
 	}
 	// (1) name
 	{
 		o := c.Ob(fn, "slice-name-from-content-hash", nil, "the slice is created under the name <deployment name>-<FNV32(slice objects, collision count)>")
 		var problems []string
 		var setName ssa.Instruction
-		for _, call := range callsIn(fn) {
-			if calleeName(call.Common) != "SetName" || !isAccessorOf(callRecv(call.Common), slice, "ClientObject") {
+		for _, xc := range p.callsInX(fn) {
+			call := xc.Call
+			ch := xc.Chain
+			if calleeName(call.Common) != "SetName" || !isAccessorOfX(callRecv(call.Common), ch, slice, "ClientObject") {
 				continue
 			}
 			if setName != nil {
@@ -1481,7 +1566,7 @@ func c14r4(c *Ctx) {
 				problems = append(problems, "name is not deployName + \"-\" + hash")
 				continue
 			}
-			if !isAccessorOf(parts[0], deploy, "ClientObject", "GetName") {
+			if !isAccessorOfX(parts[0], ch, deploy, "ClientObject", "GetName") {
 				problems = append(problems, "name prefix is not deploy.ClientObject().GetName()")
 			}
 			if s, ok := constString(parts[1]); !ok || s != "-" {
@@ -1492,12 +1577,12 @@ func c14r4(c *Ctx) {
 				problems = append(problems, "name suffix is not utils.ComputeFNV32Hash(...)")
 				continue
 			}
-			if !isAccessorOf(hc.Common().Args[0], slice, "GetObjects") {
+			if !isAccessorOfX(hc.Common().Args[0], ch, slice, "GetObjects") {
 				problems = append(problems, "the hash is not computed over slice.GetObjects()")
 			}
 			okCount := false
 			if a, isAlloc := hc.Common().Args[1].(*ssa.Alloc); isAlloc {
-				if sts, known := p.storesReaching(a, hc); known && len(sts) == 1 && sts[0].Val == ssa.Value(count) {
+				if sts, known := p.storesReaching(a, hc); known && len(sts) == 1 && p.xcResolve(sts[0].Val, ch) == ssa.Value(count) {
 					okCount = true
 				}
 			}
@@ -1514,7 +1599,7 @@ func c14r4(c *Ctx) {
 			if !isAccessorOf(callArgs(create.Common())[1], slice, "ClientObject") {
 				problems = append(problems, "Create is not applied to slice.ClientObject()")
 			}
-			if setName != nil && !p.mustPrecede(create, func(in ssa.Instruction) bool { return in == setName }) {
+			if setName != nil && !p.mustPrecedeX(create, func(in ssa.Instruction) bool { return in == setName }) {
 				problems = append(problems, "the slice is created before it is named")
 			}
 		}
@@ -1525,6 +1610,7 @@ func c14r4(c *Ctx) {
 		}
 	}
 	// (2) accept existing only if own and equal
+	collTypes := map[string]bool{} // the collision error type(s) returned by fn
 	{
 		o := c.Ob(fn, "existing-slice-accepted-only-if-own-and-equal", nil, "success is reported only when Create succeeded, or the existing slice of that name is controlled by the deployment and semantically equal in content; otherwise a collision error is returned")
 		var problems []string
@@ -1536,18 +1622,53 @@ func c14r4(c *Ctx) {
 			if oc, _ := asCall(ga[2]); oc != nil && calleeName(oc.Common()) == "ClientObject" {
 				conflicting = stripConv(callRecv(oc.Common()))
 			}
-			if kc, _ := asCall(ga[1]); kc == nil || !isCallTo(kc.Common(), pkgClient+".ObjectKeyFromObject") || !isAccessorOf(kc.Common().Args[0], slice, "ClientObject") {
+			if kc, _ := asCall(ga[1]); kc == nil || !isCallTo(kc.Common(), pkgClient+".ObjectKeyFromObject") || !isAccessorOfX(kc.Common().Args[0], getChain, slice, "ClientObject") {
 				problems = append(problems, "the conflicting slice is not read under the key of the slice being created")
 			}
 			if conflicting == nil {
 				problems = append(problems, "object read by Get not recognised")
 			}
+			// isConflicting: v (a value of fn) is the object read by the Get — directly, or as the
+			// (non-nil) result of the helper that performs the read
+			isConflicting := func(v ssa.Value) bool {
+				if conflicting == nil {
+					return false
+				}
+				if stripConv(v) == conflicting {
+					return true
+				}
+				n := 0
+				for _, x := range p.rvValuesX(v) {
+					x = stripConv(x)
+					if isNilConst(x) {
+						continue
+					}
+					if x != conflicting {
+						return false
+					}
+					n++
+				}
+				return n > 0
+			}
+			isAccessorOfConflicting := func(v ssa.Value, name string) bool {
+				call, _ := asCall(v)
+				return call != nil && calleeName(call.Common()) == name && isConflicting(callRecv(call.Common()))
+			}
 			collisionRet := 0
 			for _, rc := range p.returnCases(fn) {
 				res := rc.Results[0]
 				if !isNilConst(stripConv(res)) {
-					if mi, ok := res.(*ssa.MakeInterface); ok && strings.HasSuffix(namedTypeString(mi.X.Type()), ".sliceCollisionError") {
-						collisionRet++
+					// the collision error: a pointer to an error struct declared next to the reconciler
+					// (matched against the errors.As target of the retry loop in (3), not by name)
+					if mi, ok := res.(*ssa.MakeInterface); ok {
+						if pt, isPtr := mi.X.Type().(*types.Pointer); isPtr {
+							if nt := namedTypeString(pt.Elem()); strings.HasPrefix(nt, pkgPkgDeploy+".") {
+								if _, isStruct := pt.Elem().Underlying().(*types.Struct); isStruct {
+									collisionRet++
+									collTypes[nt] = true
+								}
+							}
+						}
 					}
 					continue
 				}
@@ -1556,11 +1677,11 @@ func c14r4(c *Ctx) {
 				}
 				// must be: Get ok, IsController(deploy, conflicting) true, DeepEqual(conflicting objs, slice objs) true
 				var miss []string
-				if !p.errOfCallIsNil(rc.Facts, get) {
+				if !errNilX(rc.Facts, get, getChain) {
 					miss = append(miss, "error-free Get of the existing slice")
 				}
 				ctrl, eq := false, false
-				for _, f := range rc.Facts {
+				for _, f := range p.xImplied(rc.Facts) {
 					if !f.Pol {
 						continue
 					}
@@ -1571,13 +1692,13 @@ func c14r4(c *Ctx) {
 					a := callArgs(call.Common())
 					switch calleeName(call.Common()) {
 					case "IsController":
-						if len(a) == 2 && isAccessorOf(a[0], deploy, "ClientObject") && conflicting != nil && isAccessorOf(a[1], conflicting, "ClientObject") {
+						if len(a) == 2 && isAccessorOf(p.rvParamRoot(a[0]), deploy, "ClientObject") && isAccessorOfConflicting(p.rvParamRoot(a[1]), "ClientObject") {
 							ctrl = true
 						}
 					case "DeepEqual":
-						if len(a) == 2 && conflicting != nil &&
-							((isAccessorOf(a[0], conflicting, "GetObjects") && isAccessorOf(a[1], slice, "GetObjects")) ||
-								(isAccessorOf(a[1], conflicting, "GetObjects") && isAccessorOf(a[0], slice, "GetObjects"))) {
+						if len(a) == 2 &&
+							((isAccessorOfConflicting(a[0], "GetObjects") && isAccessorOf(a[1], slice, "GetObjects")) ||
+								(isAccessorOfConflicting(a[1], "GetObjects") && isAccessorOf(a[0], slice, "GetObjects"))) {
 							eq = true
 						}
 					}
@@ -1641,9 +1762,13 @@ func c14r4(c *Ctx) {
 					okAs := false
 					for _, f := range fs {
 						ac, _ := asCall(f.Cond)
-						if f.Pol && ac != nil && isCallTo(ac.Common(), "errors.As") && ac.Common().Args[0] == ssa.Value(call) &&
-							strings.Contains(stripConv(ac.Common().Args[1]).Type().String(), "sliceCollisionError") {
-							okAs = true
+						if f.Pol && ac != nil && isCallTo(ac.Common(), "errors.As") && ac.Common().Args[0] == ssa.Value(call) {
+							// target is **T with *T the collision error type returned by the attempt
+							if pp, isPP := stripConv(ac.Common().Args[1]).Type().(*types.Pointer); isPP {
+								if pt, isPtr := pp.Elem().(*types.Pointer); isPtr && collTypes[namedTypeString(pt.Elem())] {
+									okAs = true
+								}
+							}
 						}
 					}
 					if !okAs {
@@ -1751,42 +1876,75 @@ func c14r5(c *Ctx) {
 			listCall, _ = call.Instr.(*ssa.Call)
 		}
 	}
+	// The set may be built by an extracted helper (`referenced := collectX(deploy, objectSets)`): it is
+	// resolved through the helper's result to the map object; the inserts and their loops are then
+	// judged inside the helper, whose call necessarily precedes the guarded delete.
+	var setObj ssa.Value
+	var setFn *ssa.Function
 	if set != nil {
-		for _, r := range referrersOf(set) {
-			mu, ok := r.(*ssa.MapUpdate)
-			if !ok || mu.Map != set {
-				continue
+		if xs := p.rvValuesX(set); len(xs) == 1 {
+			setObj = stripConv(xs[0])
+			if in, isInstr := setObj.(ssa.Instruction); isInstr {
+				setFn = in.Parent()
 			}
-			inserts = append(inserts, ins{mu: mu, from: c14SliceNameOrigin(p, mu.Key, deploy, listCall)})
+		}
+		if setFn != nil && setFn != gc {
+			// only a helper called directly for the set is followed
+			hc, _ := asCall(set)
+			if hc == nil || staticCallee(hc.Common()) != setFn {
+				setFn = nil
+			}
+		}
+		if setFn != nil {
+			for _, r := range referrersOf(setObj) {
+				mu, ok := r.(*ssa.MapUpdate)
+				if !ok || mu.Map != setObj {
+					continue
+				}
+				inserts = append(inserts, ins{mu: mu, from: c14SliceNameOrigin(p, mu.Key, deploy, listCall)})
+			}
 		}
 	}
 	completeBefore := func(mu *ssa.MapUpdate) string {
 		// all enclosing loops of the insert are complete index loops and are finished before the delete
 		b := mu.Block()
+		fnm := mu.Parent()
 		var outermost *Loop
-		for _, l := range loopsOf(gc) {
+		for _, l := range loopsOf(fnm) {
 			if l.Body[b] && (outermost == nil || len(l.Body) > len(outermost.Body)) {
 				outermost = l
 			}
 		}
-		for _, l := range loopsOf(gc) {
+		for _, l := range loopsOf(fnm) {
 			if !l.Body[b] {
 				continue
 			}
 			if _, why := fullIndexLoop(l); why != "" {
 				return "insert loop is not a complete index loop: " + why
 			}
-			if l.Body[del.Call.Block()] {
-				return "the delete happens inside the insert loop"
-			}
-			if l.Head == outermost.Head && !l.Head.Dominates(del.Call.Block()) {
-				return "the insert loop does not precede the delete on every path"
+			if fnm == gc {
+				if l.Body[del.Call.Block()] {
+					return "the delete happens inside the insert loop"
+				}
+				if l.Head == outermost.Head && !l.Head.Dominates(del.Call.Block()) {
+					return "the insert loop does not precede the delete on every path"
+				}
+			} else if l.Head == outermost.Head {
+				// inside the helper the loop must lie on every path to the helper's returns
+				for _, rb := range fnm.Blocks {
+					if len(rb.Instrs) == 0 || (fnm.Recover != nil && rb == fnm.Recover) {
+						continue
+					}
+					if _, isRet := rb.Instrs[len(rb.Instrs)-1].(*ssa.Return); isRet && (!l.Head.Dominates(rb) || l.Body[rb]) {
+						return "the insert loop does not precede the return of the set on every path"
+					}
+				}
 			}
 			// no iteration may skip the insert (innermost loop) / the next inner loop (enclosing loops)
 			var must ssa.Instruction = mu
-			if innermostLoop(gc, b).Head != l.Head {
+			if innermostLoop(fnm, b).Head != l.Head {
 				var inner *Loop
-				for _, l2 := range loopsOf(gc) {
+				for _, l2 := range loopsOf(fnm) {
 					if l2.Body[b] && l2.Head != l.Head && l.Body[l2.Head] && (inner == nil || len(l2.Body) > len(inner.Body)) {
 						inner = l2
 					}
@@ -1989,6 +2147,12 @@ func c14r5(c *Ctx) {
 	}
 }
 
+// c14SameX: a and b denote the same object once parameters of extracted helpers are replaced by the
+// arguments of their single call site (identity of the producing instruction, not of a pure-accessor key).
+func c14SameX(p *Program, a, b ssa.Value) bool {
+	return p.rvParamRoot(a) == p.rvParamRoot(b)
+}
+
 // c14SliceNameOrigin classifies the key inserted into the referenced set: an element of the
 // .Slices of a phase of deploy.GetTemplateSpec() ("template") or of <objectSets[i]>.GetPhases()
 // where objectSets is result 0 of the lister ("objectsets").
@@ -2045,7 +2209,7 @@ func c14SliceNameOrigin(p *Program, key ssa.Value, deploy *ssa.Parameter, listCa
 			}
 			switch calleeName(call.Common()) {
 			case "GetTemplateSpec":
-				if stripConv(callRecv(call.Common())) == ssa.Value(deploy) {
+				if r := stripConv(callRecv(call.Common())); r == ssa.Value(deploy) || c14SameX(p, r, deploy) {
 					return "template"
 				}
 				return ""
@@ -2054,7 +2218,8 @@ func c14SliceNameOrigin(p *Program, key ssa.Value, deploy *ssa.Parameter, listCa
 				r := stripConv(callRecv(call.Common()))
 				if u, isU := r.(*ssa.UnOp); isU {
 					if ia, isIA := u.X.(*ssa.IndexAddr); isIA {
-						if e, isE := ia.X.(*ssa.Extract); isE && e.Index == 0 && listCall != nil && e.Tuple == ssa.Value(listCall) {
+						lst := p.rvParamRoot(ia.X) // the list may arrive as a parameter of an extracted helper
+						if e, isE := lst.(*ssa.Extract); isE && e.Index == 0 && listCall != nil && e.Tuple == ssa.Value(listCall) {
 							return "objectsets"
 						}
 					}
